@@ -105,6 +105,25 @@ func (m *Machine) ActRestartProbe(t *rapid.T) {
 		if b == nil || a == nil {
 			continue
 		}
+		// the order of the tasks survives the restart: still after their dependencies, still the order of before
+		if !IsCyclic(j.Def.Tasks) {
+			pos := map[string]int{}
+			var names, namesBefore []string
+			for i, ts := range a.Tasks {
+				pos[ts.Name] = i
+				names = append(names, ts.Name)
+			}
+			for _, ts := range b.Tasks {
+				namesBefore = append(namesBefore, ts.Name)
+			}
+			for _, ts := range a.Tasks {
+				for _, d := range ts.DependsOn {
+					if p, ok := pos[d]; ok && p > pos[ts.Name] {
+						m.fail("C15", "after a restart job #%d lists task %s before its dependency %s (order %v, before the restart %v)", j.AcceptIdx, ts.Name, d, names, namesBefore)
+					}
+				}
+			}
+		}
 		// (1) every job is terminal
 		if a.Running() || a.Waiting() {
 			m.fail("C10", "after the restart job #%d is reported running=%v waiting=%v", j.AcceptIdx, a.Running(), a.Waiting())
